@@ -110,9 +110,13 @@ func (tree *MutableTree) AvailableVersions() []int {
 	if err != nil {
 		return nil
 	}
-	_, latestVersion, err := tree.ndb.getLatestVersion()
+	found, latestVersion, err := tree.ndb.getLatestVersion()
 	if err != nil {
 		return nil
+	}
+	if !found {
+		// no version has been saved yet
+		return []int{}
 	}
 	legacyLatestVersion, err := tree.ndb.getLegacyLatestVersion()
 	if err != nil {
